@@ -27,6 +27,13 @@ func (fi *FuncInfo) Body() *ast.BlockStmt {
 	return fi.Decl.Body
 }
 
+func (fi *FuncInfo) shortName() string {
+	if fi.Decl != nil {
+		return fi.Decl.Name.Name
+	}
+	return "lit"
+}
+
 func (fi *FuncInfo) Type() *ast.FuncType {
 	if fi.Lit != nil {
 		return fi.Lit.Type
